@@ -48,6 +48,17 @@ const MAPFILE: &str = "!anmmap
 45 CondJmp(op=\">=\";type=\"int\")
 ";
 
+/// The same instruction-alias name also exists in a *third* language (old-ECL timelines), under another
+/// opcode.  No use is ever in that language, so the documented rules ("aliases only in their own language")
+/// give exactly the same resolutions with or without this second mapfile; a resolver that lets an alias of
+/// another language hide or poison the lookup is caught by the unchanged expectations.
+const MAPFILE_OTHER_LANGUAGE: &str = "!eclmap
+!timeline_ins_names
+77 alias
+!timeline_ins_signatures
+77 S
+";
+
 fn diag_headings(diag: &str) -> Vec<String> {
     diag.lines()
         .filter(|l| l.starts_with("error") || l.starts_with("warning") || l.starts_with("bug"))
@@ -58,6 +69,7 @@ fn diag_headings(diag: &str) -> Vec<String> {
 fn resolve(text: &str, lang: truth::LanguageKey) -> Value {
     let r = with_truth(|truth| {
         truth.apply_mapfile_str(MAPFILE, truth::Game::Th10)?;
+        truth.apply_mapfile_str(MAPFILE_OTHER_LANGUAGE, truth::Game::Th08)?;
         let mut block = truth.parse::<ast::Block>("<input>", text.as_ref())?.value;
         let ctx = truth.ctx();
         truth::passes::resolution::assign_languages(&mut block, lang, ctx)?;
@@ -80,6 +92,7 @@ fn resolve(text: &str, lang: truth::LanguageKey) -> Value {
 fn compile(text: &str) -> Value {
     let r = with_truth(|truth| {
         truth.apply_mapfile_str(MAPFILE, truth::Game::Th10)?;
+        truth.apply_mapfile_str(MAPFILE_OTHER_LANGUAGE, truth::Game::Th08)?;
         let mut block = front_half(truth, text, truth::LanguageKey::Anm, true)?;
         let ctx = truth.ctx();
         truth::passes::evaluate_const_vars::run(ctx)?;
